@@ -254,6 +254,27 @@ class Runtime:
                     rt.cur().events.append(("tl-exit", key, shared))
 
         ns["thread_level_lock"] = observed_thread_level_lock
+
+        # observe the keyed reference pools: which (pool, key) is entered / left, in program order
+        pool_cls = ns["ThreadSafeKeyedRefPool"]
+        orig_call = pool_cls.__call__
+        names = {id(ns["_thread_level_lock_ref"]): "thread", id(ns["_process_level_lock_ref"]): "proc",
+                 id(ns["_fd_ref"]): "fd"}
+
+        @contextlib.contextmanager
+        def observed_call(self, key):
+            name = names.get(id(self), "?")
+            entered = False
+            try:
+                with orig_call(self, key) as obj:
+                    entered = True
+                    rt.cur().events.append(("pool-enter", name, key, obj))
+                    yield obj
+            finally:
+                if entered:
+                    rt.cur().events.append(("pool-exit", name, key, None))
+
+        pool_cls.__call__ = observed_call
         return ns
 
     # ------------------------------------------------------------ scheduling
